@@ -338,12 +338,38 @@ def unhex(t):
     return b"" if t == "-" else bytes.fromhex(t)
 
 
+_OUT = re.compile(r"o=(\S+) nl=([01])(?: fresh=(\S+) fnl=([01]))?( mod=1)?")
+
+
 def parse_out(res):
-    """'o=<hex> nl=<b>' -> (bytes, nl)"""
-    m = re.fullmatch(r"o=(\S+) nl=([01])", res)
+    """'o=<hex> nl=<b>[ fresh=<hex> fnl=<b>][ mod=1]' -> (bytes, nl)"""
+    m = _OUT.fullmatch(res)
     if not m:
         return None, None
     return unhex(m.group(1)), m.group(2) == "1"
+
+
+def ownership(res):
+    """The driver hands every chunk to Write in one scratch array that it overwrites after the call (io.Writer: the
+    callee must not retain or modify p) and delivers the same chunks to a second scrubber as fresh, untouched slices.
+    -> (key, text) when the two sinks differ or Write changed the caller's array, else None."""
+    m = _OUT.fullmatch(res)
+    if not m:
+        return None
+    if m.group(5):
+        return ("caller-buffer-modified",
+                "LogScrubber.Write changed the caller's array (the slice passed or the bytes behind it): io.Writer's Write "
+                "must not modify the slice data, even temporarily")
+    if m.group(3) is not None:
+        got, ref = unhex(m.group(1)), unhex(m.group(3))
+        i = next((k for k in range(min(len(got), len(ref))) if got[k] != ref[k]), min(len(got), len(ref)))
+        lo = max(0, i - 30)
+        return ("caller-buffer-retained",
+                "LogScrubber.Write retains the caller's slice (io.Writer: implementations must not retain p): the same chunks "
+                "reach the sink as %r when each is passed in one scratch array that the caller overwrites after Write has "
+                "returned (what io.Copy, bufio.Writer, os/exec do), but as %r when every chunk is a fresh slice (output offset %d)"
+                % (got[lo:i + 50].decode("latin1"), ref[lo:i + 50].decode("latin1"), i))
+    return None
 
 
 def complete_part(stream):
@@ -422,6 +448,9 @@ def prop(line, impl, model):
         out, nl = parse_out(impl)
         if out is None:
             return "unparsable driver output " + impl[:100]
+        own = ownership(impl)
+        if own:
+            return "%s: %s" % (describe_lwrite(a), own[1])
         stream = lwrite_stream(a[2])
         lk = leaks(complete_part(stream), out)
         if not nl:
@@ -433,6 +462,9 @@ def prop(line, impl, model):
         out, nl = parse_out(impl)
         if out is None:
             return "unparsable driver output " + impl[:100]
+        own = ownership(impl)
+        if own:
+            return own[1]
         if not nl:
             return "the sink received a block that does not end with a newline (partial line emitted)"
         if op == "write":
@@ -463,6 +495,9 @@ def key_of(line, impl, model):
                 return k
         return "not-fully-replaced"
     out, nl = parse_out(impl)
+    own = ownership(impl)
+    if own:
+        return own[0]
     if op == "lwrite":
         st, cuts = lwrite_stream(a[2]), lwrite_cuts(a[3])
         if out is not None and not nl:
@@ -1243,14 +1278,40 @@ WIRING_PROBES = ["probe-c07 from 203.0.113.7:4433 to [2001:db8::7]:443 via 198.5
                  "probe-c07 http2: panic serving [2620:101:f000:780:9097:75b1:519f:dbb8]:58344: x",
                  "probe-c07 a=candidate:1 1 udp 2130706431 10.11.12.13 5000 typ host ::ffff:10.11.12.13"]
 
-# binary -> (package, base arguments that let main() run offline, flags it has)
+# what the handler registered by zz_verif/wiring on http.DefaultServeMux panics with: net/http itself writes
+# "http: panic serving <peer>: <this>" (+ stack) to the error log of the server the request arrived on
+WIRING_PANIC = "probe-c07-panic peer 203.0.113.9:4434 relay [2001:db8::9]:443 via 198.51.100.99"
+WIRING_PANIC_ADDRS = [b"203.0.113.9", b"2001:db8::9", b"198.51.100.99"]
+# lines written by something other than the standard logger: marker -> name of the sink in keys / evidence
+HTTP_MARKERS = [(b"http: panic serving", "http-server-errorlog"), (b"http: TLS handshake error", "http-server-errorlog"),
+                (b"probe-c07-errorlog ", "http-server-errorlog")]
+
+# binary -> (package, base arguments that let main() run offline, flags it has;
+#            http=True: main() builds an http.Server of its own on http.DefaultServeMux and serves it: the run goes on
+#            until it listens, once with -disable-tls and once with -cert/-key (self-signed, made by the helper))
 WIRING = {
-    "broker": ("./broker", ["-disable-tls", "-disable-geoip", "-addr", "127.0.0.1:0"], dict(log=False, verbose=False)),
+    "broker": ("./broker", ["-disable-tls", "-disable-geoip", "-addr", "127.0.0.1:0"], dict(log=False, verbose=False, http=True)),
     "client": ("./client", [], dict(log=True, verbose=False)),
     "proxy": ("./proxy", ["-broker", "http://127.0.0.1:1/", "-stun", "stun:127.0.0.1:1", "-relay", "wss://127.0.0.1:1/"],
               dict(log=True, verbose=True)),
     "server": ("./server", ["-disable-tls"], dict(log=True, verbose=False)),
-    "probetest": ("./probetest", ["-disable-tls", "-addr", "127.0.0.1:0"], dict(log=False, verbose=False)),
+    "probetest": ("./probetest", ["-disable-tls", "-addr", "127.0.0.1:0"], dict(log=False, verbose=False, http=True)),
+}
+# Log sinks in the five mains other than the standard logger (read off the sources; reported in the evidence):
+SINK_INVENTORY = {
+    "broker": ["http.Server{Addr} served by main(): ErrorLog (nil on the pinned tree = the standard logger) - JUDGED: real net/http "
+               "lines (handler panic; TLS handshake errors with -cert/-key) must arrive scrubbed in every observed sink",
+               "metricsLogger = log.New(-metrics-log file | os.Stdout): metrics lines only, raw by design; os.Stdout is observed: "
+               "no probe line may arrive there unscrubbed",
+               "http.ListenAndServe(\":80\", certManager.HTTPHandler) (ACME only): a net/http default server, needs port 80 and "
+               "ACME: not run"],
+    "probetest": ["http.Server{Addr} served by main(): ErrorLog - JUDGED as for the broker"],
+    "server": ["HTTP-01 http.Server{Addr, Handler} (ACME only, port 80): not run; the WebSocket http.Server is built in server/lib, "
+               "not in main()"],
+    "proxy": ["eventlogOutput (stderr and the -log file) handed to sf.NewProxyEventLogger: periodic traffic summary (numbers and "
+              "units), raw by design, not judged"],
+    "client": ["pt.Log to tor over stdout: event strings, judged by the event-string cases (key event-string-leaks)"],
+    "all": ["pion's default LoggerFactory (error level, os.Stdout) is not configured by any main; not judged here"],
 }
 # which sinks the standard logger must reach: (binary, has -log, has -verbose) -> {sink}
 def expected_sinks(binary, log, verbose):
@@ -1263,8 +1324,9 @@ def expected_sinks(binary, log, verbose):
     return {"stderr"}
 
 
-def wiring_variant(exe, binary, unsafe, log, verbose):
-    """one run of the real main() of `binary`; returns dict(case, args, sinks | error)"""
+def wiring_variant(exe, binary, unsafe, log, verbose, http=""):
+    """one run of the real main() of `binary`; returns dict(case, args, sinks | error).
+    http: "" | "plain" | "tls" (see zz_verif/wiring)"""
     import json as _json
     import shutil
     import subprocess
@@ -1275,25 +1337,32 @@ def wiring_variant(exe, binary, unsafe, log, verbose):
         logf = os.path.join(tmp, "the.log")
         args = list(base) + (["-log", logf] if log else []) + (["-verbose"] if verbose else []) + (["-unsafe-logging"] if unsafe else [])
         env = dict(os.environ, VERIF_WIRING_ARGS=_json.dumps(args), VERIF_WIRING_PROBES=_json.dumps(WIRING_PROBES),
-                   VERIF_WIRING_LOG=logf if log else "",
+                   VERIF_WIRING_LOG=logf if log else "", VERIF_WIRING_HTTP=http, VERIF_WIRING_PANIC=WIRING_PANIC,
                    TOR_PT_MANAGED_TRANSPORT_VER="1", TOR_PT_STATE_LOCATION=os.path.join(tmp, "state"),
                    TOR_PT_CLIENT_TRANSPORTS="snowflake", TOR_PT_SERVER_TRANSPORTS="snowflake",
                    TOR_PT_SERVER_BINDADDR="snowflake-127.0.0.1:0", TOR_PT_ORPORT="127.0.0.1:1")
         env.pop("TOR_PT_EXIT_ON_STDIN_CLOSE", None)
         shown = " ".join(a if a != logf else "<log>" for a in args)
-        res = dict(case="wiring %s %s" % (binary, shown or "(no arguments)"), shown=shown, binary=binary, unsafe=unsafe, log=log, verbose=verbose)
+        if http == "tls":
+            shown = shown.replace("-disable-tls", "-cert <self-signed> -key <key>")
+        if http:
+            shown += " [served until it listens: handler panic%s]" % (", plain HTTP to the TLS port" if http == "tls" else "")
+        res = dict(case="wiring %s %s" % (binary, shown or "(no arguments)"), shown=shown, binary=binary, unsafe=unsafe, log=log,
+                   verbose=verbose, http=http)
         try:
             r = subprocess.run([exe, "-test.run", "^TestVerifC07Wiring$"], env=env, cwd=tmp, capture_output=True, timeout=180)
         except subprocess.TimeoutExpired:
             res["error"] = "did not finish within 180 s"
             return res
-        m = re.search(rb"@@wiring stderr=(\S+) logfile=(\S+)", r.stdout)
+        m = re.search(rb"@@wiring stderr=(\S+) stdout=(\S+) logfile=(\S+) peers=(\S+) errorlog=(\S+)", r.stdout)
         if not m:
             e = re.search(rb"@@wiring error=(\S+)", r.stdout)
             res["error"] = ("did not reach the point where logging is configured: " +
                             (bytes.fromhex(e.group(1).decode()).decode("latin1") if e else (r.stdout[-300:] + r.stderr[-300:]).decode("latin1")))
             return res
-        res["sinks"] = dict(stderr=unhex(m.group(1).decode()), logfile=unhex(m.group(2).decode()))
+        res["sinks"] = dict(stderr=unhex(m.group(1).decode()), stdout=unhex(m.group(2).decode()), logfile=unhex(m.group(3).decode()))
+        res["peers"] = [] if m.group(4) == b"-" else m.group(4).decode().split(",")
+        res["errorlog"] = m.group(5).decode()
         return res
     finally:
         shutil.rmtree(tmp, ignore_errors=True)
@@ -1305,7 +1374,7 @@ def judge_wiring(res):
     viol, notes, got = [], [], {}
     raw = [L1(p) for p in WIRING_PROBES]
     for sink, content in res["sinks"].items():
-        lines = [l[l.index(b"probe-c07"):] for l in content.split(b"\n") if b"probe-c07" in l]
+        lines = [l[l.index(b"probe-c07 "):] for l in content.split(b"\n") if b"probe-c07 " in l]
         got[sink] = lines
         if not lines or res["unsafe"]:
             continue                                  # -unsafe-logging: anything goes
@@ -1320,13 +1389,43 @@ def judge_wiring(res):
                              dict(label="log-wiring", case=case, binary=binary, unsafe=res["unsafe"], log=res["log"], verbose=res["verbose"],
                                   sink=sink, received=line.decode("latin1"))))
                 break
+    http_seen = {}
+    if res.get("http"):
+        # lines that net/http (or the server's own ErrorLog) wrote: none of the peers' addresses, none of the addresses of
+        # the panic value may be in them, whatever sink they arrived in
+        hosts = sorted({p.rsplit(":", 1)[0].strip("[]").encode() for p in res["peers"]})
+        for sink, content in res["sinks"].items():
+            for l in content.split(b"\n"):
+                for marker, name in HTTP_MARKERS:
+                    if marker in l:
+                        http_seen.setdefault(marker.decode().strip(), set()).add(sink)
+                        found = [t for t in hosts + WIRING_PANIC_ADDRS + [L1(p) for p in res["peers"]] if t in l]
+                        if found and not res["unsafe"] and not any(v[2].get("sink") == sink and v[2].get("source") == name for v in viol):
+                            viol.append(("log-sink-unscrubbed:%s:%s" % (binary, name),
+                                         "%s %s: what net/http writes to the error log of the http.Server built in main() does not pass "
+                                         "the scrubber: the sink `%s` received %r (address %s; peers of the run: %s; the server's ErrorLog "
+                                         "field is %s)" % (binary, res["shown"], sink, l[:300].decode("latin1"),
+                                                           found[-1].decode("latin1"), ", ".join(res["peers"]), res["errorlog"]),
+                                         dict(label="log-wiring", case=case, binary=binary, unsafe=res["unsafe"], log=res["log"],
+                                              verbose=res["verbose"], http=res["http"], sink=sink, source=name,
+                                              received=l[:300].decode("latin1"))))
+                        break
+        needm = ["http: panic serving"] + (["http: TLS handshake error"] if res["http"] == "tls" else [])
+        for mk in needm:
+            if mk not in http_seen:
+                notes.append("log wiring: `%s`: no `%s` line arrived in stderr, stdout or the log file within 20 s (the server's "
+                             "ErrorLog field is %s): where the http.Server's error log goes cannot be judged" % (case, mk, res["errorlog"]))
     reached = {k for k, v in got.items() if v}
     want_sinks = expected_sinks(binary, res["log"], res["verbose"])
     if not want_sinks <= reached:
         notes.append("log wiring: `%s`: the probe lines did not reach %s (reached: %s); the wiring cannot be judged"
                      % (case, sorted(want_sinks - reached), sorted(reached) or "nothing"))
-    return viol, notes, dict(reached=sorted(reached), unsafe=res["unsafe"],
-                             scrubbed={k: all(b"[scrubbed]" in l for l in v) for k, v in got.items() if v})
+    summary = dict(reached=sorted(reached), unsafe=res["unsafe"],
+                   scrubbed={k: all(b"[scrubbed]" in l for l in v) for k, v in got.items() if v})
+    if res.get("http"):
+        summary.update(http=res["http"], server_errorlog_field=res["errorlog"], peers=len(res["peers"]),
+                       http_lines_arrived_in={k: sorted(v) for k, v in http_seen.items()})
+    return viol, notes, summary
 
 
 def log_wiring(ctx):
@@ -1344,8 +1443,10 @@ def log_wiring(ctx):
         for unsafe in (False, True):
             for log in ((False, True) if has["log"] else (False,)):
                 for verbose in ((False, True) if has["verbose"] else (False,)):
-                    res = wiring_variant(exe, binary, unsafe, log, verbose)
-                    ctx.count(res["case"], kind="wiring-%s%s%s%s" % (binary, "-log" if log else "", "-verbose" if verbose else "", "-unsafe" if unsafe else ""))
+                  for http in (("plain", "tls") if has.get("http") else ("",)):
+                    res = wiring_variant(exe, binary, unsafe, log, verbose, http)
+                    ctx.count(res["case"], kind="wiring-%s%s%s%s%s" % (binary, "-log" if log else "", "-verbose" if verbose else "",
+                                                                        "-unsafe" if unsafe else "", "-http-" + http if http else ""))
                     if "error" in res:
                         ctx.not_shown("log wiring: `%s` %s" % (res["case"], res["error"]))
                         continue
@@ -1357,8 +1458,15 @@ def log_wiring(ctx):
                     runs[res["case"]] = summary
     ctx.extra["log_wiring"] = dict(
         approach="dynamic for all five mains (broker, client, proxy, server, probetest): real main() in-process up to log.SetOutput, "
-                 "probe lines through the standard logger, sinks = process stderr and the -log file; every combination of "
-                 "-log / -verbose / -unsafe-logging the binary has",
+                 "probe lines through the standard logger, sinks = process stderr, process stdout and the -log file; every "
+                 "combination of -log / -verbose / -unsafe-logging the binary has. broker and probetest (an http.Server built in "
+                 "main() on http.DefaultServeMux) are served until they listen, with -disable-tls and with -cert/-key: a handler "
+                 "registered on the default mux by the test helper panics with an address-bearing value (net/http writes `http: "
+                 "panic serving <peer>: ...` to that server's error log) and prints the probe lines through the server's ErrorLog "
+                 "when it is not nil (the *http.Server is taken from http.ServerContextKey); with TLS, plain HTTP is spoken to the "
+                 "port three times (`http: TLS handshake error from <peer>`); no observed sink may receive a peer's address or an "
+                 "address of the panic value",
+        sink_inventory=SINK_INVENTORY,
         runs=runs,
         not_covered="proxy: the event logger's own writer (eventlogOutput: stderr and the -log file, not behind the scrubber by "
                     "design) only receives the periodic traffic summary (numbers and units); it is not reached by the standard "
@@ -1531,7 +1639,8 @@ def replay(ctx, doc):
         rp = v["replay"]
         if rp.get("label") == "log-wiring":
             b = rp["binary"]
-            res = wiring_variant(vlib.go_test_build(WIRING[b][0], name="c07_wiring_%s.test" % b), b, rp["unsafe"], rp["log"], rp["verbose"])
+            res = wiring_variant(vlib.go_test_build(WIRING[b][0], name="c07_wiring_%s.test" % b), b, rp["unsafe"], rp["log"], rp["verbose"],
+                                 rp.get("http", ""))
             viol = judge_wiring(res)[0] if "sinks" in res else []
             print("case: %s\n property: %s" % (rp["case"], viol[0][1] if viol else res.get("error", "holds")))
             bad += 1 if viol else 0
